@@ -65,6 +65,10 @@ CHECKS = {
         technique='property-based round-trip and differential testing: generated configurations -> printed paths -> flag parser -> reference resolution / reference setter; generated directive sequences against sequential application in Python; rendered call expressions against their structured source',
         text='Three generated case kinds: (1) configurations in the stated domain (dict keys incl. empty, punctuation, escapes, non-ASCII, ints; literal leaves) whose flattened printers must list exactly the reference leaves once, each printed path must parse and resolve to its leaf, and writing back the same / a different literal must change nothing / exactly what a reference setter changes; (2) base-config + set:/fiddler: directive sequences (mutating and new-config-returning fiddlers, non-commuting pairs) split over several parse() calls with intermediate .value reads, compared with in-order application in Python, plus the config_str serializer round trip; (3) CallExpression.parse of rendered calls.',
         note='Trusted: reference leaf walk, render(), ref_set() in props/c18.py; ast.literal_eval as the literal reader. atheris-driven variant of the same strategies is not registered (see DESIGN section 8).'),
+    'C20': dict(
+        technique='property-based metamorphic testing: generated configuration x transformation; relation build(t(c)) ~ build(c) by canonical form (sharing, behavioural partials), plus ==, idempotence, completeness and serializability clauses',
+        text='Eleven transformations (materialize_defaults, with_defaults_trimmed in both modes, unintern_tuples_of_literals, replace_unconfigured_partials_with_callables, clear_argument_history, materialize_tags in two modes, auto_config.inline, convert_dataclasses_to_configs) are applied to generated DAGs with positional-only defaults, single and shared mutable defaults (explicit arguments equal to / aliasing them), dataclass default factories, TaggedValues whose payload is shared, Partials in containers and tuples of literals; the built graphs must be canonically identical, == must hold where stated, materialize_defaults must be idempotent and complete, serializability must be preserved. Sharing differences that consist only of default-object identity (and one aliasing defect of replace_unconfigured_partials) are listed known findings, classified by an explicit predicate.',
+        note='Trusted: harness/canon.py (incl. no_identity / probe_symbols modes), classification predicates in props/c20.py. == instability under copying is owned by C06 and counted as prerequisite_failed.'),
 }
 
 PENDING = {}
